@@ -1085,7 +1085,7 @@ def gen_cases(rng, tier):
             cases.append(sharing_history(sub, other, [[0, 1, 2, 3][b] for b in part]))   # every sharing pattern of filters
         cases += action_histories(random.Random(rng.getrandbits(64)))
         cases += restart_histories(random.Random(rng.getrandbits(64)))
-    for _ in range(120 if tier == "quick" else 4000):
+    for _ in range(260 if tier == "quick" else 6000):
         sub = random.Random(rng.getrandbits(64))
         cases.append(random_history04(sub, length=sub.choice([8, 14, 14, 22])))
     return cases
@@ -1159,14 +1159,17 @@ def run(tier, seed, replay=None):
     ck.notes["requests_of_the_envelope_refused"] = unexpected_rejections
     # ---- correspondence
     terms, kept = [], []
-    limit = 70 if tier == "quick" else 600
-    for (tag, case, intents, views), out in zip(cases, outs):
+    limit = 130 if tier == "quick" else 900
+    tagged = [i for i, c in enumerate(cases) if c[0]]
+    rest = [i for i, c in enumerate(cases) if not c[0]]
+    stride = max(1, len(rest) // max(1, limit - len(tagged)))
+    for i in tagged + rest[::stride]:
         if len(terms) >= limit:
             break
-        t = case_term(case, out)
+        t = case_term(cases[i][1], outs[i])
         if t is not None:
             terms.append(t)
-            kept.append((case, out))
+            kept.append((cases[i][1], outs[i]))
     ck.notes["model_evaluations"] = len(terms)
     try:
         idx = coq_eval_shards("C04", HEADER, terms, shard=5, timeout=1500)
